@@ -226,7 +226,9 @@ pub fn run(cases: Vec<(String, Value)>, max_fail: usize, opts: &HashMap<String, 
     let step = Duration::from_millis(opts.get("bound_ms").and_then(|s| s.parse().ok()).unwrap_or(20000));
     run_cases(cases, max_fail, move |_tag, case| {
         let mut out = Outcome::default();
-        let p = parse_out(&case["out"]);
+        let mut p = parse_out(&case["out"]);
+        distinct_literals(&mut p);
+        let p = p;
         out.nontrivial = p.toks.len() >= 7;
         let n = p.toks.len();
         let mut names = layouts.clone();
